@@ -617,7 +617,8 @@ func precedenceOfKinds(kind1 reflect.Kind, kind2 reflect.Kind) reflect.Kind {
 			return kind2
 		}
 		return kind1
-	case reflect.Int, reflect.Int8, reflect.Int16, reflect.Int32, reflect.Int64:
+	case reflect.Int, reflect.Int8, reflect.Int16, reflect.Int32, reflect.Int64,
+		reflect.Uint, reflect.Uint8, reflect.Uint16, reflect.Uint32, reflect.Uint64, reflect.Uintptr:
 		switch kind2 {
 		case reflect.String, reflect.Float64, reflect.Float32:
 			return kind2
